@@ -14,42 +14,102 @@ def _dots_writes(it, names):
     return out
 
 
+def _entry_model(it):
+    """`self.dots.entry(k)` written with the Entry API: the entry term, its key, the discriminant values of the two
+    arms, and the insert sites of each arm.  Occupied: the stored counter is `OccupiedEntry::get`; Vacant: get(k) == 0."""
+    for bb, c in sorted(it.calls.items()):
+        if call_name(c.term) == 'entry' and len(c.args) == 2:
+            pp = param_path(c.args[0].val)
+            if pp and pp[0] == 1 and pp[1][-1:] == ('dots',):
+                E = versionless(c.term)
+                btree = 'BTreeMap' in c.cid or 'btree_map' in c.cid
+                m = {'E': E, 'key': versionless(c.args[1].val), 'occ': 1 if btree else 0, 'vac': 0 if btree else 1, 'ins_occ': [], 'ins_vac': []}
+                for b2, c2 in sorted(it.calls.items()):
+                    if call_name(c2.term) == 'insert' and len(c2.args) == 2:
+                        a0 = versionless(c2.args[0].val)
+                        if a0 == ('field', E, 'Occupied.0'):
+                            m['ins_occ'].append((b2, c2))
+                        elif a0 == ('field', E, 'Vacant.0'):
+                            m['ins_vac'].append((b2, c2))
+                return m
+    return None
+
+
 @rule('VC-APPLY', {
     'C10': 'apply must be monotone: keep the max (insert when get < counter, never when get > counter)',
     'C09': 'a stale dot must never lower a counter',
     'C11': 'GCounter/PNCounter keep the largest running total per actor through this function',
 }, floor=1)
 def vc_apply(ctx):
-    """VClock::apply inserts dot.counter for dot.actor: must under get(actor) < counter, never under get(actor) > counter."""
+    """VClock::apply stores dot.counter for dot.actor: must under get(actor) < counter, never under get(actor) > counter
+    (written with get/insert, or with the Entry API where a vacant entry means get(actor) == 0)."""
     facts = ctx.facts
     body = ctx.method(VCLOCK, 'CmRDT', 'apply')
     it = interp(facts, body)
     ins = _dots_writes(it, ('insert',))
+    em = _entry_model(it)
     found = []
+    base_cls = gate_classifier(found)
+
+    def mk(world):
+        def classify(a, b, t):
+            r_ = base_cls(a, b, t)
+            if r_ is not None or em is None:
+                return r_
+            for x, y, orient in ((a, b, 'fwd'), (b, a, 'rev')):
+                y_ = versionless(y)
+                if not (y_[0] == 'field' and y_[2] == 'counter' and em['key'] == ('field', y_[1], 'actor')):
+                    continue
+                x_ = versionless(x)
+                if world == 'occ' and is_call(x_, ('get', 'get_mut')) and len(x_[2]) == 1 and x_[2][0] == ('field', em['E'], 'Occupied.0'):
+                    found.append({'dot': y_[1], 'clock': em['E'][2][0]})
+                    return ('gate', orient)
+                if world == 'vac' and x_[0] == 'const' and x_[1] == 0:
+                    found.append({'dot': y_[1], 'clock': em['E'][2][0]})
+                    return ('gate', orient)   # a vacant entry: get(actor) is 0
+            return None
+
+        def atom(t):
+            if em is not None and t[0] == 'discr' and versionless(t[1]) == em['E']:
+                return ('map', 'occupied', {True: em['occ'], False: em['vac']})
+            return None
+        return classify, atom
+    worlds = [('occ', o) for o in TOTAL] + [('vac', LT), ('vac', EQ)] if em else [('', o) for o in TOTAL]
+    all_ins = ins + (em['ins_occ'] + em['ins_vac'] if em else [])
     res = {}
-    for o in TOTAL:
-        evr = Evaluator(facts, classify=gate_classifier(found), assumption={'gate': o})
+    for w, o in worlds:
+        cls, atom = mk(w)
+        evr = Evaluator(facts, classify=cls, bool_atom=atom, assumption={'gate': o, 'occupied': w == 'occ'})
         rc = Reach(facts, body, evr)
-        res[o] = (any(b in rc.reachable for b, _ in ins), rc.must_pass([b for b, _ in ins]) if ins else False)
-    det = {'(insert may, must)': res}
-    if not ins:
+        res[(w, o)] = (any(b in rc.reachable for b, _ in all_ins), rc.must_pass([b for b, _ in all_ins]) if all_ins else False)
+    det = {'(entry state, ord(get(actor), counter)) -> (store may, must)': {'%s%s' % (w + ',' if w else '', o): v for (w, o), v in res.items()}}
+    if not all_ins:
         ctx.fail('apply', body, 'VClock::apply never inserts into dots', details=det)
         return
     if not found:
         ctx.fail('apply', body, 'the insertion is not guarded by a comparison of get(dot.actor) with dot.counter', details=det)
         return
     g = found[0]
-    line = ins[0][1].line
-    if not res[LT][1]:
+    line = all_ins[0][1].line
+    newer = [k for k in res if k[1] == LT]
+    older = [k for k in res if k[1] == GT]
+    if not all(res[k][1] for k in newer):
         ctx.fail('apply', body, 'a dot newer than the stored counter is not inserted (apply is not the max)', line=line, details=det)
-    elif res[GT][0]:
+    elif any(res[k][0] for k in older):
         ctx.fail('apply', body, 'a dot older than the stored counter overwrites it (counter can decrease)', line=line, details=det)
+    elif ('vac', EQ) in res and res[('vac', EQ)][0]:
+        ctx.fail('apply', body, 'a dot with counter 0 is stored for an absent actor (a zero counter)', line=line, details=det)
     else:
-        c = ins[0][1]
-        k, v = versionless(c.args[1].val), versionless(c.args[2].val)
-        good = k == ('field', g['dot'], 'actor') and v == ('field', g['dot'], 'counter')
-        ctx.check(good, 'apply', body, 'insert(dot.actor, dot.counter): must under {Lt}, never under {Gt}',
-                  'the value inserted is not (dot.actor, dot.counter): %s, %s' % (fmt(k), fmt(v)), line=line, details=det)
+        bad = None
+        for b_, c in all_ins:
+            if len(c.args) == 3:
+                k, v = versionless(c.args[1].val), versionless(c.args[2].val)
+            else:
+                k, v = em['key'], versionless(c.args[1].val)
+            if not (k == ('field', g['dot'], 'actor') and v == ('field', g['dot'], 'counter')):
+                bad = (k, v)
+        ctx.check(bad is None, 'apply', body, 'stores (dot.actor, dot.counter): must under {Lt}, never under {Gt}',
+                  'the value inserted is not (dot.actor, dot.counter): %s, %s' % ((fmt(bad[0]), fmt(bad[1])) if bad else ('', '')), line=line, details=det)
 
 
 @rule('VC-RESET', {
@@ -532,57 +592,184 @@ def dot_pcmp(ctx):
               'Dot::partial_cmp does not return the counter comparison exactly for equal actors and None otherwise', details={'same_actor -> (None may, cmp may, None must, cmp must)': {str(k): v for k, v in res.items()}})
 
 
+def _is_dots_loc(loc):
+    root, path = loc
+    if tuple(path)[-1:] == ('dots',):
+        return True
+    if root[0] == 'O':
+        t = versionless(root[1])
+        if t[0] == 'upvar' and not path:
+            return str(t[2]).endswith('dots')
+        while t[0] == 'field' and not path:
+            return t[2] == 'dots'
+    return False
+
+
+def _local_chain(body, n):
+    """locals whose value is moved/copied (whole) into local n by a single plain assignment, transitively."""
+    out, work = {n}, [n]
+    while work:
+        t = work.pop()
+        defs = []
+        for blk in body.blocks:
+            if blk['cleanup']:
+                continue
+            for st in blk['stmts']:
+                if st['k'] == 'assign' and st['place']['local'] == t and not st['place']['proj']:
+                    defs.append(st['rv'])
+        if len(defs) == 1 and defs[0]['k'] == 'use' and defs[0]['op']['k'] in ('copy', 'move') and not defs[0]['op']['place']['proj']:
+            m = defs[0]['op']['place']['local']
+            if m not in out:
+                out.add(m)
+                work.append(m)
+    return out
+
+
+def _stored_counter(vv):
+    """vv is the counter component of an item of an iteration over some clock's dots (a counter that is already stored)."""
+    if vv[0] == 'field' and vv[2] in ('1', 'counter'):
+        t = vv[1]
+        src = as_item(t) if t[0] != 'item' else t[1]
+        if src is not None:
+            base = versionless(iter_source(src)[0])
+            if base[0] == 'field' and base[2] == 'dots':
+                return True
+            if is_call(base, 'iter', self_adt='VClock') or (base[0] == 'call' and cinfo(base[1])['name'] in ('iter', 'into_iter') and 'VClock' in (cinfo(base[1])['self'] or '')):
+                return True
+    return False
+
+
+def _nonzero_proof(facts, body, it, bb, v):
+    vv = versionless(v)
+    if vv[0] == 'const' and isinstance(vv[1], int) and not isinstance(vv[1], bool) and vv[1] > 0:
+        return 'a non-zero constant'
+    if vv[0] == 'binop' and vv[1] == 'Add' and any(a[0] == 'const' and isinstance(a[1], int) and a[1] >= 1 for a in (vv[2], vv[3])):
+        return 'a successor (x + 1)'
+    if _stored_counter(vv):
+        return 'a counter already stored in a clock'
+
+    def atom(t):
+        if versionless(t) == vv:
+            return 'v'
+        return None
+
+    def classify(a, b, t):
+        for x, y, orient in ((a, b, 'fwd'), (b, a, 'rev')):
+            if versionless(x) == vv and versionless(y)[0] != 'const':
+                return ('z', orient)
+        return None
+    for z in (LT, EQ):   # v == 0  implies  v <= e for every u64 e
+        rc = Reach(facts, body, Evaluator(facts, classify=classify, bool_atom=atom, assumption={'v': 0, 'z': z}))
+        if bb in rc.reachable:
+            return None
+    return 'guarded: the store is unreachable when the value is 0'
+
+
 @rule('VC-NOZERO', {
-    'C10': 'No API call stores a zero counter: only the audited writers touch dots',
-}, floor=1)
+    'C10': 'No API call stores a zero counter: every counter written into a dots map is provably non-zero at the store',
+}, floor=3)
 def vc_nozero(ctx):
-    """Who-may-write census: the only functions of the crate that write VClock.dots (or build a VClock from parts) are the audited ones."""
+    """Every store of a counter into a VClock's `dots` map anywhere in the crate (insert, Entry API, write through an
+    element reference, collected pairs) writes a value that is non-zero there: a constant, a successor, a counter taken
+    from a clock, or a value whose store is unreachable when it is 0 (dataflow over the guards)."""
     facts = ctx.facts
-    allowed_writers = {
-        '<crdts::vclock::VClock as crdts::traits::CmRDT>::apply': 'guarded insert (VC-APPLY): counter > get >= 0',
-        '<crdts::vclock::VClock as crdts::traits::ResetRemove>::reset_remove': 'only removes',
-        'crdts::vclock::VClock::glb': 'filters zero minima (VC-GLB)',
-        '<crdts::vclock::VClock as std::iter::IntoIterator>::into_iter': 'consumes',
-    }
-    allowed_ctors = {
-        '<crdts::vclock::VClock as std::default::Default>::default': 'empty',
-        'crdts::vclock::VClock::intersection': 'copies stored counters (VC-INTERSECT)',
-    }
-    writers, ctors = {}, {}
-    for b in facts.bodies:
-        if b.derived:
+    from .loops import coll_local
+    n_sites = 0
+    for b0 in facts.bodies:
+        if b0.derived:
+            continue
+        b = facts._v(b0) if b0.kind != 'Closure' else facts.cb(b0.uid)
+        if b is None:
             continue
         it = interp(facts, b)
-        for w in list(it.writes.values()) + list(it.muts.values()):
-            root, path = w.loc
-            full = path
-            if root[0] == 'O':
-                pp = param_path(root[1])
-                if pp:
-                    full = tuple(pp[1]) + tuple(path)
-                else:
-                    v = versionless(root[1])
-                    flds = []
-                    while v[0] == 'field':
-                        flds.append(v[2])
-                        v = v[1]
-                    full = tuple(reversed(flds)) + tuple(path)
-            if full[-1:] == ('dots',) and root[0] != 'L':
-                k = b.key if b.kind != 'Closure' else b.key.split('::{closure')[0]
-                writers.setdefault(k, w.line)
+        # local maps that become the dots of a clock
+        ldots = set()
         for blk in b.blocks:
             if blk['cleanup']:
                 continue
-            for s in blk['stmts']:
-                if s['k'] == 'assign' and s['rv']['k'] == 'agg' and s['rv'].get('path') == VCLOCK:
-                    k = b.key if b.kind != 'Closure' else b.key.split('::{closure')[0]
-                    ctors.setdefault(k, s['span']['line'])
-    bad = [(k, l) for k, l in writers.items() if k not in allowed_writers] + [(k, l) for k, l in ctors.items() if k not in allowed_ctors]
-    det = {'writers': sorted(writers), 'constructors': sorted(ctors)}
-    if bad:
-        k, l = bad[0]
-        b = facts.body(k)
-        ctx.fail('census', b, 'function %s writes or builds VClock.dots but is not an audited writer (may store a zero or stale counter)' % k, line=l, details=det)
-    else:
-        ctx.ok('census', facts.body('<crdts::vclock::VClock as crdts::traits::CmRDT>::apply'),
-               'dots written only by %d audited writers and %d constructors' % (len(writers), len(ctors)), details=det)
+            for st in blk['stmts']:
+                if st['k'] == 'assign' and st['rv']['k'] == 'agg' and st['rv'].get('path') == VCLOCK:
+                    for op in st['rv'].get('ops', []):
+                        if op['k'] in ('copy', 'move') and not op['place']['proj']:
+                            ldots |= _local_chain(b, op['place']['local'])
+        bulk = []
+        for w in it.writes.values():
+            if w.kind == 'assign' and _is_dots_loc(w.loc) and w.loc[0][0] != 'L':
+                nm = coll_local(w.val)
+                if nm:
+                    ldots.add(int(nm[1:]))
+                bulk.append(w)
+        for t_ in subterms(it.ret) if it.ret is not None else []:
+            pass
+
+        def is_dots_map(a):
+            if a.loc is None:
+                return False
+            if _is_dots_loc(a.loc):
+                return True
+            return a.loc[0][0] == 'L' and not a.loc[1] and a.loc[0][1] in ldots
+        sites = []
+        shapes = []
+        for bb, c in sorted(it.calls.items()):
+            n = call_name(c.term)
+            if not c.args:
+                continue
+            a0 = c.args[0]
+            if n == 'insert' and len(c.args) == 3 and is_dots_map(a0):
+                sites.append((bb, c.args[2].val, c.line))
+            elif n == 'insert' and len(c.args) == 2 and c.cid.startswith('verif::collected') and is_dots_map(a0):
+                item = drop_lv(c.args[1].val)
+                if item[0] == 'tuple' and len(item[1]) == 2:
+                    sites.append((bb, item[1][1], c.line))
+                else:
+                    sites.append((bb, ('field', item, '1'), c.line))
+            elif n in ('insert', 'or_insert', 'insert_entry') and len(c.args) == 2:
+                e = versionless(a0.val)
+                if e[0] == 'field' and e[2] in ('Occupied.0', 'Vacant.0'):
+                    e = e[1]
+                if is_call(e, 'entry') and len(e[2]) == 2:
+                    m = e[2][0]
+                    if (m[0] == 'field' and m[2] == 'dots') or (param_path(m) and param_path(m)[1][-1:] == ('dots',)):
+                        sites.append((bb, c.args[1].val, c.line))
+            elif n in ('or_insert_with', 'and_modify', 'or_insert_with_key', 'extend', 'append') and (is_dots_map(a0) or (
+                    is_call(versionless(a0.val), 'entry') and versionless(a0.val)[2] and versionless(versionless(a0.val)[2][0])[0] == 'field'
+                    and versionless(versionless(a0.val)[2][0])[2] == 'dots')):
+                shapes.append((c.line, '%s on a dots map is not modelled' % n))
+            elif n in ('retain', 'retain_mut', 'for_each', 'iter_mut', 'values_mut') and is_dots_map(a0) and n in ('retain', 'retain_mut'):
+                for clo, m_ in closure_bindings(c.term):
+                    cb = facts.cb(clo[1])
+                    if cb is not None and any(w.loc[0] == ('P', 3) for w in list(interp(facts, cb).writes.values())):
+                        shapes.append((c.line, 'the retain closure rewrites the stored counter (decided on the loop view)'))
+        for (bb, si), w in sorted(it.writes.items(), key=lambda kv: str(kv[0])):
+            tgt = loc_target(it, w.loc)
+            if tgt and tgt[2] == 'ew' and tuple(tgt[1])[-1:] == ('dots',) and not tgt[3]:
+                sites.append((bb, w.val, w.line))
+        for w in bulk:
+            v = drop_lv(w.val)
+            if is_call(v, 'collect') and iter_source(v[2][0])[2]:
+                shapes.append((w.line, 'dots assigned from an adaptor chain with closures (decided on the loop view)'))
+        # aggregate built from a collect chain with closures
+        for t_ in [x for x in subterms(drop_lv(it.ret)) if x[0] == 'agg' and x[1] == VCLOCK] if it.ret is not None else []:
+            dv = dict(t_[3]).get('dots')
+            if dv is not None and is_call(drop_lv(dv), 'collect') and drop_lv(dv)[2] and iter_source(drop_lv(dv)[2][0])[2]:
+                shapes.append((b.line, 'VClock built from an adaptor chain with closures (decided on the loop view)'))
+        if not sites and not shapes:
+            continue
+        fk = b0.key if b0.kind != 'Closure' else b0.key
+        inst = fk.replace('crdts::', '')
+        ctx.analysed.add(b0.key)
+        for line, msg in shapes:
+            ctx.shape(inst, b, msg, line=line, fnkey=fk)
+        proofs, bad = [], None
+        for bb, v, line in sites:
+            n_sites += 1
+            pr = _nonzero_proof(facts, b, it, bb, v)
+            if pr is None:
+                bad = (line, v)
+            else:
+                proofs.append('line %d: %s' % (line, pr))
+        if bad:
+            ctx.fail(inst, b, 'the counter stored at line %d (%s) is not provably non-zero: a zero counter can be stored in a clock' % (bad[0], fmt(bad[1], 4)),
+                     line=bad[0], fnkey=fk, details={'proofs': proofs})
+        elif sites:
+            ctx.ok(inst, b, 'every counter stored into dots is non-zero (%d store site(s))' % len(sites), line=sites[0][2], fnkey=fk, details={'proofs': proofs})
